@@ -35,7 +35,7 @@ Lemma sm_unfold : forall m needle h th tn,
       do r <- re_search needle (py_str th);
       match r with
       | RMatch b => Ok b
-      | RError => Raise (PyCrash ReError)
+      | RError => Raise (YPE Generic)
       end
   end.
 Proof.
@@ -110,7 +110,7 @@ Lemma sm_regex : forall needle h th tn,
   typed_haystack h = Ok th -> typed_value (PStr needle) = Ok tn ->
   smh MRegex needle h =
     (do r <- re_search needle (py_str th);
-     match r with RMatch b => Ok b | RError => Raise (PyCrash ReError) end).
+     match r with RMatch b => Ok b | RError => Raise (YPE Generic) end).
 Proof. intros. rewrite (sm_unfold MRegex _ _ _ _ H H0). reflexivity. Qed.
 
 (* all nine at once *)
@@ -121,7 +121,7 @@ Lemma sm_table : forall m needle h th tn,
   | SRegex =>
       smh m needle h =
         (do r <- re_search needle (py_str th);
-         match r with RMatch b => Ok b | RError => Raise (PyCrash ReError) end)
+         match r with RMatch b => Ok b | RError => Raise (YPE Generic) end)
   end.
 Proof.
   intros m needle h th tn Hh Hn. destruct m; simpl.
